@@ -5,6 +5,7 @@ package main
 // writes evidence and replay files.
 
 import (
+	"go/types"
 	"regexp"
 	"golang.org/x/tools/go/ssa"
 	"encoding/json"
@@ -128,6 +129,7 @@ type CheckRun struct {
 	LoopCounts map[string]int
 	ParamNames map[string][]string
 	Sigs       map[string]string
+	Fields     map[string][]string
 	Fallback  []string // functions whose deductive proof was lost and replaced by the bounded fallback
 }
 
@@ -187,6 +189,25 @@ func runCheck(prop, tier string, rebaseline bool) int {
 	ld.bindSpecial()
 	run.Assume = specs.Assumes
 	pruneQueryFiles(2 * time.Hour)
+	if rebaseline {
+		run.Fields = map[string][]string{}
+		for _, tp := range ld.allTypes {
+			if !ld.modPaths[tp.Path()] {
+				continue
+			}
+			for _, n := range tp.Scope().Names() {
+				if tn, ok := tp.Scope().Lookup(n).(*types.TypeName); ok {
+					if stt, ok := tn.Type().Underlying().(*types.Struct); ok {
+						var fs []string
+						for i := 0; i < stt.NumFields(); i++ {
+							fs = append(fs, stt.Field(i).Name())
+						}
+						run.Fields[typeKey(tn.Type())] = fs
+					}
+				}
+			}
+		}
+	}
 	expectedProved = map[string]bool{}
 	if !rebaseline {
 		for _, n := range loadBaseline()[prop] {
@@ -662,6 +683,12 @@ func loadPinnedTables() {
 			pinnedLoops[kv[:i]] = n
 		}
 	}
+	pinnedFields = map[string][]string{}
+	for _, kv := range base["#fields"] {
+		if i := strings.Index(kv, "="); i > 0 && kv[i+1:] != "" {
+			pinnedFields[kv[:i]] = strings.Split(kv[i+1:], ",")
+		}
+	}
 	pinnedSigs = map[string]string{}
 	for _, kv := range base["#sig"] {
 		if i := strings.Index(kv, "="); i > 0 {
@@ -990,6 +1017,13 @@ func finishCheck(run *CheckRun, rebaseline bool) int {
 			sgs = append(sgs, f+"="+sg[f])
 		}
 		base["#sig"] = sgs
+		if len(run.Fields) > 0 {
+			var fl []string
+			for _, k := range sortedKeys(run.Fields) {
+				fl = append(fl, k+"="+strings.Join(run.Fields[k], ","))
+			}
+			base["#fields"] = fl
+		}
 		data, _ := json.MarshalIndent(base, "", " ")
 		os.WriteFile(baselineFile, data, 0o644)
 		fmt.Printf("baseline %s: %d obligations proved, %d failing\n", prop, len(names), len(run.Results)-len(names))
